@@ -276,18 +276,13 @@ class Merge(Expr):
                 _npartitions = max(self.left.npartitions, self.right.npartitions)
 
         elif self.is_broadcast_join:
-            meta_index_names = set(self._meta.index.names)
-            if (
-                self.broadcast_side == "left"
-                and set(self.right._meta.index.names) == meta_index_names
-            ):
-                return self._bcast_right._divisions()
-            elif (
-                self.broadcast_side == "right"
-                and set(self.left._meta.index.names) == meta_index_names
-            ):
-                return self._bcast_left._divisions()
-            _npartitions = max(self.left.npartitions, self.right.npartitions)
+            # Every output partition is the concatenation of the merges with
+            # each partition of the broadcast side: whatever index comes out,
+            # it is not sorted within the partitions
+            if self.broadcast_side == "left":
+                _npartitions = self._bcast_right.npartitions
+            else:
+                _npartitions = self._bcast_left.npartitions
 
         else:
             _npartitions = self._npartitions
@@ -722,9 +717,11 @@ class BroadcastJoin(Merge, PartitionsFiltered):
     }
 
     def _divisions(self):
-        if self.broadcast_side == "left":
-            return self.right._divisions()
-        return self.left._divisions()
+        # Every output partition is the concatenation of the merges with each
+        # partition of the broadcast side: whatever index comes out, it is not
+        # sorted within the partitions
+        other = self.right if self.broadcast_side == "left" else self.left
+        return (None,) * (other.npartitions + 1)
 
     def _simplify_up(self, parent, dependents):
         return
